@@ -289,25 +289,33 @@ def run(chk):
                 'after every call; random long walks recorded from the real class are validated by TLC (ArgsTrace). '
                 'A case is one path.')
     ops = all_ops()
-    d = tlc.workdir('C18_model')
-    defs = ['MCVals == {' + ', '.join(tla_v(v) for v in VALS) + '}', 'MCOps == {' + ', '.join(tla_op(o) for o in ops) + '}']
-    cfg = ('SPECIFICATION Spec\nCONSTANTS\n Vals <- MCVals\n AOps <- MCOps\n MaxLen = %d\n MaxHist = 40\nVIEW View\n'
-           'INVARIANT LenBound\nINVARIANT Dump\nPROPERTY BadStringRejectedAtomically\nPROPERTY ErrorsAreAtomic\nCHECK_DEADLOCK FALSE\n'
-           % (3 if quick else 4))
-    tlc.write_mc(d, 'MCA', 'Args', defs, cfg)
-    res = tlc.run(d, 'MCA', timeout=6000)
-    chk.add_tlc('model', res, 'Args: lists of <= %d items x %d operations, one path per (state, op)' % (3 if quick else 4, len(ops)))
-    if res.violated:
-        raise tlc.MachineryError('Args model violates %s' % res.violated)
-    recs = [r for r in res.records if 'h' in r]
-    bad = obs.pmap(_replay, recs)
-    for r, b in zip(recs, bad):
-        chk.case(json.dumps([e['op'] for e in r['h']]))
-        if b:
-            chk.violation('C18-' + b['why'], {'kind': 'path', 'history': [norm_op(e['op']) for e in r['h'][:b['step'] + 1]], 'mismatch': b})
-    chk.count('paths_replayed', len(recs))
-    for r in recs[:2] + recs[-3:]:
-        chk.sample({'path': [[e['op']['k'], e['op']['i'], from_atoms(e['op']['v']['t']), e['r'][:2], [from_atoms(t) for t in e['texts']]] for e in r['h']]})
+
+    def within(o, vals):
+        ts = [(v['id'], v['t']) for v in vals]
+        return all((v['id'], v['t']) in ts for v in [o['v']] + o['vs'] if v is not NOV)
+    # quick: lists of <= 3 items over the whole value pool; thorough adds lists of <= 4 items over the first nine values
+    configs = [('model', VALS, 3)] + ([] if quick else [('model4', VALS[:9], 4)])
+    for label, vals, maxlen in configs:
+        cops = [o for o in ops if within(o, vals)]
+        d = tlc.workdir('C18_' + label)
+        defs = ['MCVals == {' + ', '.join(tla_v(v) for v in vals) + '}', 'MCOps == {' + ', '.join(tla_op(o) for o in cops) + '}']
+        cfg = ('SPECIFICATION Spec\nCONSTANTS\n Vals <- MCVals\n AOps <- MCOps\n MaxLen = %d\n MaxHist = 40\nVIEW View\n'
+               'INVARIANT LenBound\nINVARIANT Dump\nPROPERTY BadStringRejectedAtomically\nPROPERTY ErrorsAreAtomic\nCHECK_DEADLOCK FALSE\n'
+               % maxlen)
+        tlc.write_mc(d, 'MCA', 'Args', defs, cfg)
+        res = tlc.run(d, 'MCA', timeout=6000)
+        chk.add_tlc(label, res, 'Args: lists of <= %d items over %d values x %d operations, one path per (state, op)' % (maxlen, len(vals), len(cops)))
+        if res.violated:
+            raise tlc.MachineryError('Args model violates %s' % res.violated)
+        recs = [r for r in res.records if 'h' in r]
+        bad = obs.pmap(_replay, recs)
+        for r, b in zip(recs, bad):
+            chk.case(json.dumps([e['op'] for e in r['h']]))
+            if b:
+                chk.violation('C18-' + b['why'], {'kind': 'path', 'history': [norm_op(e['op']) for e in r['h'][:b['step'] + 1]], 'mismatch': b})
+        chk.count('paths_replayed', len(recs))
+        for r in recs[:2] + recs[-3:]:
+            chk.sample({'path': [[e['op']['k'], e['op']['i'], from_atoms(e['op']['v']['t']), e['r'][:2], [from_atoms(t) for t in e['texts']]] for e in r['h']]})
     traces = record_walks(rng, 400 if quick else 6000, 30)
     for t in traces:
         chk.case(json.dumps([e['op'] for e in t['h']]))
